@@ -51,9 +51,15 @@ use futures::stream::{Stream};
 use futures::task;
 use futures::task::{Poll, Context};
 
+#[cfg(not(desync_verif))]
 use std::sync::*;
+#[cfg(desync_verif)]
+use vsched::sync::*;
 use std::pin::{Pin};
 use std::collections::VecDeque;
+
+#[cfg(desync_verif)]
+use vsched::lazy_static;
 
 lazy_static! {
     /// Desync for disposing of references used in pipes (if a pipe is closed with pending data, this avoids clearing it in the same context as the pipe monitor)
